@@ -6,7 +6,9 @@ P: RG.Engine.RenderSpec proves, for all templates and capture sets with distinct
    test is regenerated from runner.go (leaf translator) and node_text_exact (incl. a node ending at EOF) is re-proved
    against it; the statements of handleMatch / handleCommentMatch / renderMessage / loadSyntaxRule / loadCommentRule
    that the model mirrors are re-read from source as facts and must all hold.
-K: the Coq models render_msg / node_text / mk_report+load_alternatives are executed (vm_compute) on the same template,
+   The scanning loop of renderMessage is translated from runner.go statement by statement (go2coq c03loop) and proved on
+   every run to compute that interpolation for all templates and capture lists (Inst_RenderLoop.v).
+K: the Coq models gen_render_msg (the translated loop) / render_msg / node_text / mk_report+load_alternatives are executed (vm_compute) on the same template,
    capture list, offsets and TruncateLen as the real renderMessage / nodeText (hooks) and as engine-level runs.
 O: an independent Go implementation of the specification (longest name, source slices taken from offsets known by
    construction, C15 truncation) vs the observed ReportData; `$$` suggestions must leave the bytes unchanged and the
@@ -69,8 +71,9 @@ def run(c):
               "construction, under TruncateLen 0/20/1000; non-trivial = a capture or $$ was interpolated; distinct by full case content")
     c.trusted += [
         "go2coq c03extras (nodeText in-range test through the leaf translator; statement-shape facts of the report path)",
-        "hand model of renderMessage's scanning loop (RenderSpec.interp/render) -- tied by correspondence through hook VerifRenderMessage "
-        "and engine runs, and by the regenerated statement facts",
+        "go2coq c03loop: the statement-level Go->Gallina translator of renderMessage's scanning loop (its reading of Go: let for :=/=, ++ for append, "
+        "partial slices in the outcome monad, tuple joins for if/else, match for the nil test, range_first for the capture loop); the typed-nil filter "
+        "and the sort in front of the loop are modelled by hand (RenderSpec.sort_len) -- tied by correspondence through hook VerifRenderMessage and engine runs",
         "go/parser, go/types and gogrep deliver the match and its captures; go/token offsets",
         "harness/cmd/c03 (its independent specification oracle) and hooks VerifRenderMessage / VerifNodeText (build tag verif)",
     ]
